@@ -1,5 +1,6 @@
 import Proofs.C13
 import Proofs.TieLJ
+import Proofs.TieLJShape
 #print axioms PV.Proofs.C13.powi2
 #print axioms PV.Proofs.C13.powi3
 #print axioms PV.Proofs.C13.powi6
@@ -27,3 +28,6 @@ import Proofs.TieLJ
 #print axioms PV.Proofs.C13.lj_asymmetric_unlike
 #print axioms PV.Proofs.Tie.declared_translated_lj
 #print axioms PV.Proofs.Tie.lj2_energy_tie
+#print axioms PV.Proofs.Tie.declared_translated_ljshape
+#print axioms PV.Proofs.Tie.ljshape_energy_tie
+#print axioms PV.Proofs.Tie.ljshape_radius_tie
